@@ -44,6 +44,16 @@ func hasProp(ps []string, p string) bool {
 	return false
 }
 
+// directlyTagged: the contract of fn names the property (block or clause level), or the
+// property is the safety sweep that covers every function.
+func directlyTagged(db *SpecDB, fn, prop string) bool {
+	if prop == "C04" {
+		return true
+	}
+	c := db.Contracts[fn]
+	return c != nil && (hasProp(c.Props, prop) || clauseHasProp(c, prop))
+}
+
 func runCheck(ld *Loaded, db *SpecDB, work string, t0 time.Time) int {
 	prop := *flagProp
 	ex := newExec(ld, db)
@@ -373,7 +383,9 @@ func finish(ld *Loaded, db *SpecDB, reports []*FuncReport, groups map[string]*ob
 	sort.Strings(missing)
 	// functions that were verified without engine errors in this run
 	cleanFunc := map[string]bool{}
+	verified := map[string]bool{}
 	for _, r := range reports {
+		verified[r.Key] = true
 		if len(r.Unsupported) == 0 && r.Skipped == "" {
 			cleanFunc[r.Key] = true
 		}
@@ -393,6 +405,15 @@ func finish(ld *Loaded, db *SpecDB, reports []*FuncReport, groups map[string]*ob
 		if perInstr && cleanFunc[fn] {
 			moved = append(moved, n)
 			continue
+		}
+		// A function that was only verified because another function of the property relied on
+		// its contract drops out of the check when that reliance disappears (a call removed or
+		// redirected). Its obligations are then decided by the properties that name it.
+		if !verified[fn] && !directlyTagged(db, fn, prop) {
+			if _, exists := ld.byKey[fn]; exists {
+				moved = append(moved, n)
+				continue
+			}
 		}
 		violations++
 		p := writeReplayNote(prop, n, nil, "baseline obligation can no longer be generated (function, loop or clause no longer binds): "+strings.Join(engineErrs, "; "))
